@@ -107,6 +107,9 @@ def coerce_dtypes(df, dtypes):
             desired = dtypes[c]
             if is_float_dtype(actual) and is_integer_dtype(desired):
                 bad_dtypes.append((c, actual, desired))
+            elif len(df) == 0:
+                # No rows (e.g. an empty block): nothing can have failed to parse
+                df[c] = df[c].astype(desired)
             elif is_object_dtype(actual) and is_datetime64_any_dtype(desired):
                 # This can only occur when parse_dates is specified, but an
                 # invalid date is encountered. Pandas then silently falls back
